@@ -165,6 +165,8 @@ def live_requests(thorough):
             for v in (-1, 8, 100, -8):
                 io.append((cls, v, False, spell))
     io.append((None, 3, False, "none"))
+    io.append((None, 0, False, "none"))
+    io.append((None, 7, False, "none"))
     for cls in (4, 7, 8):
         io.append((cls, 0, None, "int"))
     out.append(("ionice", io))
@@ -178,7 +180,8 @@ def live_requests(thorough):
     aff += [((cp[0], cp[0]), "valid"), ((cp[1], cp[0], cp[1]), "valid")]
     aff = [((), "valid")] + aff + [(tuple(cp), "valid"), ((), "valid"), ((cp[0], cp[1]), "valid"), ((), "valid")]
     hi = max(cp) + 1
-    aff += [((hi,), "invalid"), ((hi + 5, hi + 9), "invalid"), ((4096,), "invalid"), ((-1,), "invalid")]
+    aff += [((hi,), "invalid"), ((hi + 5, hi + 9), "invalid"), ((4096,), "invalid"), ((-1,), "invalid"),
+            ((2 ** 32,), "invalid"), ((2 ** 32 + 1,), "invalid"), ((2 ** 40,), "invalid"), ((-2 ** 32,), "invalid"), ((2 ** 31,), "invalid")]
     n = 16
     step = max(1, len(aff) // n)
     for i in range(0, len(aff), step):
@@ -278,6 +281,44 @@ def sim_refusal(arg):
     return bad
 
 
+def sim_oneshot(arg):
+    """inside one oneshot() block: cached getter, then set, then get -> the get must read the kernel"""
+    import psutil
+    what = arg
+    w = World(ncpus=4)
+    w.spawn(1, ppid=0, comm=b"init", start=1)
+    w.spawn(w.mypid, ppid=1, comm=b"caller", start=50)
+    p = w.spawn(4700, ppid=w.mypid, comm=b"subj", start=900)
+    p.nice, p.ioprio, p.rlimits = 1, (2, 4), {7: (100, 200)}
+    use_world(w)
+    pr = psutil.Process(4700)
+    bad = []
+    with pr.oneshot():
+        for m in ("name", "ppid", "cpu_times", "uids", "num_threads", "status", "memory_info"):
+            getattr(pr, m)()
+        if what == "nice":
+            before = pr.nice()
+            pr.nice(5)
+            got, kern = pr.nice(), p.nice
+        elif what == "ionice":
+            before = pr.ionice()
+            pr.ionice(psutil.IOPRIO_CLASS_BE, 6)
+            g = pr.ionice()
+            got, kern = (int(g.ioclass), g.value), p.ioprio
+        elif what == "affinity":
+            before = pr.cpu_affinity()
+            pr.cpu_affinity([2])
+            got, kern = pr.cpu_affinity(), sorted(p.affinity)
+        else:
+            before = pr.rlimit(psutil.RLIMIT_NOFILE)
+            pr.rlimit(psutil.RLIMIT_NOFILE, (5, 9))
+            got, kern = pr.rlimit(psutil.RLIMIT_NOFILE), p.rlimits[7]
+    if got != kern:
+        bad.append(("sim:get-after-set-inside-oneshot:%s" % what, "%s: before %r, after the set the kernel reports %r but the getter returned %r"
+                    % (what, before, kern, got)))
+    return bad
+
+
 def sim_cases(thorough):
     cases = []
     shapes = [("0-3", 4, [0, 1, 2, 3]), ("0,2", 4, [0, 2]), ("0-1,4-5", 8, [0, 1, 4, 5]), ("3", 4, [3]), ("0-1,3", 4, [0, 1, 3]),
@@ -313,7 +354,11 @@ def run(ctx):
     for c, bad in zip(rc, ctx.pmap(sim_refusal, rc)):
         for cause, msg in bad:
             viols.append({"cause": cause, "msg": msg, "case": {"refusal": list(c)}})
-    cov = {"evaluations": nlive + len(sc) + len(rc), "distinct_nontrivial": nlive + len(sc) + len(rc) - 4,
+    oc = ["nice", "ionice", "affinity", "rlimit"]
+    for c, bad in zip(oc, ctx.pmap(sim_oneshot, oc)):
+        for cause, msg in bad:
+            viols.append({"cause": cause, "msg": msg, "case": {"oneshot": c}})
+    cov = {"oneshot_sequences": len(oc), "evaluations": nlive + len(sc) + len(rc) + len(oc), "distinct_nontrivial": nlive + len(sc) + len(rc) - 4,
            "rule": "live: one evaluation = one set request on a sacrificial child on the real kernel, read back through psutil and the OS, "
                    "sibling compared; sim: one evaluation = one (Cpus_allowed_list shape, request) or (syscall, errno) pair; requests are "
                    "distinct by construction (4 repeated nice values excluded)",
@@ -328,6 +373,8 @@ def replay(ctx, case):
     if "sim" in case:
         c = case["sim"]
         bad = sim((c[0], c[1], c[2], tuple(c[3])))
+    elif "oneshot" in case:
+        bad = sim_oneshot(case["oneshot"])
     elif "refusal" in case:
         bad = sim_refusal(tuple(case["refusal"]))
     else:
